@@ -867,6 +867,9 @@ class Lower:
             return 'any_cast__%s(%s)' % (self.types.mangle(qt(n)), ', '.join(self.addr(x) for x in a))
         if name in ('to_string',):
             return 'cstring__opaque()'
+        if name in ('min', 'max') and len(a) == 2 and self.types.classify(qt(n))[0] == 'builtin':
+            # std::min(a, b) = (b < a) ? b : a ; std::max(a, b) = (a < b) ? b : a   (scalar operands of one type, side-effect free in the rule table)
+            return '((%s) < (%s) ? (%s) : (%s))' % ((a[1], a[0], a[1], a[0]) if name == 'min' else (a[0], a[1], a[1], a[0]))
         raise LowerError("library call outside rule table: %s" % name)
 
     def ex_CXXOperatorCallExpr(self, n):
@@ -886,8 +889,10 @@ class Lower:
             self.cur.calls.append(cn)
             self.cur.calldecls[cn] = df
             if df.get('kind') == 'CXXMethodDecl':
-                return '%s(%s)' % (cn, ', '.join([self.addr(self.ex(a0))] + self.args_for(df, args[1:])))
-            return '%s(%s)' % (cn, ', '.join(self.args_for(df, args)))
+                call = '%s(%s)' % (cn, ', '.join([self.addr(self.ex(a0))] + self.args_for(df, args[1:])))
+            else:
+                call = '%s(%s)' % (cn, ', '.join(self.args_for(df, args)))
+            return '(*%s)' % call if self.returns_ref(df) else call
         self.cur.libcalls.append('%s.%s' % (cls, name))
         if cls == 'function' and name == 'operator()':
             if not getattr(self, 'cb_target', None):
